@@ -36,13 +36,18 @@ QB_Cfgs == {BelU(2, 1, 2, 0), BelU(1, 4, 2, 8)}
 MS_Cfgs == {BelU(2, 2, 2, 0)}
 MS_Cls  == {"zero", "pub", "regen", "dyn"}
 \* ---- thorough
-TC_Cfgs == {ConvU(kf, kg, ke, lag, 2, akd) : kf \in K, kg \in K, ke \in K, lag \in {2, 16}, akd \in {0, 8}}
-TB_Cfgs == {BelU(ke, kr, aux, akd) : ke \in K, kr \in K, aux \in {0, 2}, akd \in {0, 8}}
+\* depth 3, every efficiency combination, hist hidden by VIEW
+TC_Cfgs == {ConvU(kf, kg, ke, 4, 2, 0) : kf \in K, kg \in K, ke \in K} \cup {ConvU(2, 2, 2, lag, 0, 8) : lag \in {2, 16}}
+TB_Cfgs == {BelU(ke, kr, 2, 0) : ke \in K, kr \in K} \cup {BelU(2, 2, 0, 8)}
+\* depth 4, emitted
 T4C_Cfgs == {ConvU(2, 4, 1, 4, 2, 0), ConvU(1, 2, 4, 2, 0, 8)}
+T4C_On  == {"zero", "half", "pubm", "pub", "pubp", "over", "dyn"}
 T4B_Cfgs == {BelU(2, 4, 2, 0)}
+T4B_On  == {"zero", "pubm", "pub", "pubp", "regen", "regenp", "dyn"}
+\* depth 5, hist hidden by VIEW
 T5C_Cfgs == {ConvU(2, 2, 2, 4, 2, 0)}
 T5B_Cfgs == {BelU(2, 2, 2, 0)}
-T5_ConvCls == {"zero", "pubm", "pubp", "over", "dyn"}
+T5_ConvCls == {"zero", "half", "pubm", "pub", "pubp", "over", "dyn"}
 T5_BelCls  == {"zero", "pubm", "pubp", "regen", "regenp", "dyn"}
 OnOnly == {TRUE}
 Bools == BOOLEAN
@@ -50,7 +55,8 @@ SocMin == {2}
 ClsZero == {"zero"}
 ClsZeroDyn == {"zero", "dyn"}
 QC_Off == {"zero", "half", "dyn"}
-QB_On == AllCls \ {"half"}
+QC_On == ConvCls \ {"dynp"}
+QB_On == AllCls \ {"half", "regenm", "dynp"}
 QB_Off == {"zero", "regen"}
 
 Done == n = Depth /\ pc = "aux"
